@@ -9,10 +9,10 @@ import (
 
 func init() {
 	register(&Prop{
-		ID: "C10",
-		Decided: "(1) the session key encoder is injective and NULL-distinct (keyenc); (2) end = last activity + timeout wherever lastActive is stored, a new session is [ts, ts+timeout), and the last activity of an open session only moves forward (an accepted out-of-order event does not rewind it, so last+timeout never falls behind the end); (3) a session is marked expired only under time >= its end, the late policy of Add discards only late rows, allowance entries expire only at end+AllowedLateness; (4) gap split: on the branch of Add where a session for the key already exists, the append to that session is unreachable when ts > that session's end (otherwise the split depends on the expiry goroutine's schedule); (5) sessionMap/triggeredSessions/callback are accessed only under sw.mu.",
+		ID:         "C10",
+		Decided:    "(1) the session key encoder is injective and NULL-distinct (keyenc); (2) end = last activity + timeout wherever lastActive is stored, a new session is [ts, ts+timeout), and the last activity of an open session only moves forward (an accepted out-of-order event does not rewind it, so last+timeout never falls behind the end); (3) a session is marked expired only under time >= its end, the late policy of Add discards only late rows, allowance entries expire only at end+AllowedLateness; (4) gap split: on the branch of Add where a session for the key already exists, the append to that session is unreachable when ts > that session's end (otherwise the split depends on the expiry goroutine's schedule); (5) sessionMap/triggeredSessions/callback are accessed only under sw.mu.",
 		NotDecided: "that each event is in exactly one reported session under all schedules; window_start as the earliest accepted timestamp under out-of-order input; aggregate values.",
-		Run: runC10,
+		Run:        runC10,
 	})
 }
 
